@@ -677,6 +677,7 @@ type Job struct {
 	Depth int
 	Final bool  // merged: the successors are at the full depth (reduced final alphabet, not expanded further)
 	Done  []int // configurations that are finished (the worker drops what it remembers about them)
+	Epoch int   // 1: shallow pass, 2: full search (the worker starts a new per-configuration set)
 }
 
 type NewState struct {
@@ -716,6 +717,7 @@ func workerMain() {
 		e.crash, _ = os.OpenFile(p, os.O_CREATE|os.O_WRONLY, 0o644)
 	}
 	seen := map[int]map[[16]byte]bool{}
+	epoch := map[int]int{}
 	for {
 		var j Job
 		if err := in.Decode(&j); err != nil || j.Kind == "quit" {
@@ -729,8 +731,9 @@ func workerMain() {
 		o0, x0 := e.ops, e.execs
 		switch j.Kind {
 		case "merged":
-			if seen[j.Cfg] == nil {
+			if seen[j.Cfg] == nil || epoch[j.Cfg] != j.Epoch {
 				seen[j.Cfg] = map[[16]byte]bool{}
+				epoch[j.Cfg] = j.Epoch
 			}
 			sn := seen[j.Cfg]
 			for pi, p := range j.Paths {
@@ -947,6 +950,13 @@ func (m *master) account(r *Reply) {
 	}
 }
 
+// failed: did the configuration produce a violation already?
+func (m *master) failed(c *Config) bool {
+	m.mu.Lock()
+	defer m.mu.Unlock()
+	return m.nviol[c.ID()] > 0
+}
+
 // submit sends the jobs and returns the replies in job order (nil entries: aborted).
 func (m *master) submit(jobs []Job) []*Reply {
 	ts := make([]*task, len(jobs))
@@ -971,16 +981,37 @@ func (m *master) submit(jobs []Job) []*Reply {
 }
 
 // explore runs the raw and the merged search of one configuration.
-func (m *master) explore(ci int, deadline time.Time, nworkers int) {
+// shallowDepth: the first pass explores every configuration to this depth before any
+// configuration is explored fully (simplest first across configurations, and whatever
+// happens to the time budget on a loaded machine, every configuration has been looked at).
+const shallowDepth = 3
+
+func (m *master) explore(ci int, deadline time.Time, nworkers int, shallow bool) {
 	c := m.cs[ci]
 	info := map[string]interface{}{"config": c.ID(), "alphabet": len(c.Ops)}
 	complete := true
+	minDepth, maxDepth, rawDepth, epoch := c.Depth, c.MaxDepth, c.RawDepth, 2
+	if shallow {
+		epoch = 1
+		if rawDepth > 2 {
+			rawDepth = 2
+		}
+		if maxDepth > shallowDepth {
+			minDepth, maxDepth = shallowDepth, shallowDepth
+		}
+	} else if m.failed(c) {
+		m.mu.Lock()
+		m.incompl = append(m.incompl, c.ID())
+		m.perCfg = append(m.perCfg, map[string]interface{}{"config": c.ID(), "complete": false, "stopped": "violation in the shallow pass"})
+		m.mu.Unlock()
+		return
+	}
 	// raw: one job per first operation
-	if c.RawDepth > 0 {
+	if rawDepth > 0 {
 		var jobs []Job
 		for oi, o := range c.Ops {
 			if c.allowed(o, c.Init, 0) {
-				jobs = append(jobs, Job{Kind: "raw", Cfg: ci, Paths: [][]uint8{{uint8(oi)}}, Depth: c.RawDepth})
+				jobs = append(jobs, Job{Kind: "raw", Cfg: ci, Paths: [][]uint8{{uint8(oi)}}, Depth: rawDepth})
 			}
 		}
 		n := int64(0)
@@ -994,13 +1025,15 @@ func (m *master) explore(ci int, deadline time.Time, nworkers int) {
 				complete = false
 			}
 		}
-		info["raw_depth"], info["raw_histories"] = c.RawDepth, n
-		m.mu.Lock()
-		m.rawHist += n
-		m.mu.Unlock()
+		info["raw_depth"], info["raw_histories"] = rawDepth, n
+		if !shallow {
+			m.mu.Lock()
+			m.rawHist += n
+			m.mu.Unlock()
+		}
 	}
 	// merged BFS
-	if c.Depth > 0 && complete {
+	if maxDepth > 0 && complete {
 		seen := map[[16]byte]bool{}
 		refSeen := map[[16]byte]bool{}
 		frontier := [][]uint8{{}}
@@ -1008,9 +1041,9 @@ func (m *master) explore(ci int, deadline time.Time, nworkers int) {
 		var perLevel []int
 		trans := int64(0)
 		reached := 0
-		for d := 0; d < c.MaxDepth && len(frontier) > 0; d++ {
+		for d := 0; d < maxDepth && len(frontier) > 0; d++ {
 			// the level that reaches the last depth applies the final alphabet
-			final := d+1 == c.MaxDepth || (d+1 >= c.Depth && len(frontier) > c.Cap)
+			final := d+1 == maxDepth || (d+1 >= minDepth && len(frontier) > c.Cap)
 			if time.Now().After(deadline) || atomic.LoadInt32(&m.stop) != 0 {
 				complete = false
 				info["stopped_before_depth"] = d + 1
@@ -1026,7 +1059,7 @@ func (m *master) explore(ci int, deadline time.Time, nworkers int) {
 				if e > len(frontier) {
 					e = len(frontier)
 				}
-				j := Job{Kind: "merged", Cfg: ci, Start: s, Paths: frontier[s:e], Final: final}
+				j := Job{Kind: "merged", Cfg: ci, Start: s, Paths: frontier[s:e], Final: final, Epoch: epoch}
 				if len(fkeys) > 0 {
 					j.Keys = fkeys[s:e]
 				}
@@ -1081,6 +1114,9 @@ func (m *master) explore(ci int, deadline time.Time, nworkers int) {
 			perLevel = append(perLevel, len(seen)+1)
 			frontier, fkeys = next, nkeys
 		}
+		if shallow {
+			return
+		}
 		info["depth_reached"] = reached
 		if complete {
 			m.mu.Lock()
@@ -1095,6 +1131,9 @@ func (m *master) explore(ci int, deadline time.Time, nworkers int) {
 		m.states += int64(len(refSeen) + 1)
 		m.product += int64(len(seen) + 1)
 		m.mu.Unlock()
+	}
+	if shallow {
+		return
 	}
 	info["complete"] = complete
 	m.mu.Lock()
@@ -1150,7 +1189,6 @@ func main() {
 		replay(rep, rep.ReplayOnly)
 	}
 	cs := configs(rep.Thorough())
-	showcase := showcases(cs)
 	nw := runtime.NumCPU()
 	if s := os.Getenv("C10_WORKERS"); s != "" {
 		nw, _ = strconv.Atoi(s)
@@ -1192,25 +1230,33 @@ func main() {
 		}
 		return wi < wj
 	})
-	var cwg sync.WaitGroup
-	sem := make(chan bool, 24)
-	for _, ci := range order {
-		if only := os.Getenv("C10_ONLY"); only != "" && !strings.Contains(cs[ci].ID(), only) { // debugging aid
-			continue
+	for _, shallow := range []bool{true, false} {
+		var cwg sync.WaitGroup
+		sem := make(chan bool, 24)
+		for _, ci := range order {
+			if only := os.Getenv("C10_ONLY"); only != "" && !strings.Contains(cs[ci].ID(), only) { // debugging aid
+				continue
+			}
+			cwg.Add(1)
+			sem <- true
+			go func(ci int) {
+				defer cwg.Done()
+				m.explore(ci, deadline, nw, shallow)
+				<-sem
+			}(ci)
 		}
-		cwg.Add(1)
-		sem <- true
-		go func(ci int) {
-			defer cwg.Done()
-			m.explore(ci, deadline, nw)
-			<-sem
-		}(ci)
+		cwg.Wait()
 	}
-	cwg.Wait()
 	close(m.tasks)
 	wg.Wait()
 	if m.infra != "" {
 		rep.Infra = m.infra
+	}
+	// the showcase histories belong to the explored space: they are only executed here, in the
+	// master, when the search found nothing (an aggregator that panics would take the master down)
+	var showcase []interface{}
+	if rep.Violations() == 0 && atomic.LoadInt32(&m.stop) == 0 && len(m.incompl) == 0 {
+		showcase = showcases(cs)
 	}
 	sort.Strings(m.samples)
 	if len(m.samples) > 12 { // spread over the configurations
@@ -1255,6 +1301,7 @@ func main() {
 		"raw_histories":                 m.rawHist,
 		"depth":                         depth,
 		"max_depth":                     maxDepth,
+		"shallow_pass_depth":            shallowDepth,
 		"depth_rule":                    "quick: merged search to depth 5, to depth 4 with the match cache on; thorough: depth 6 everywhere, depth 7 where the depth-5 frontier has at most 100000 states (per_configuration.depth_reached); depth = smallest depth_reached, max_depth = largest; raw search to raw_depth (cache-on wait=0 configurations: raw only)",
 		"raw_depth":                     raw,
 		"configurations":                len(cs),
